@@ -24,6 +24,30 @@ impl<I: Interner> SLGSolver<I> {
     }
 }
 
+#[cfg(chalk_verif)]
+impl<I: Interner> SLGSolver<I> {
+    /// Verification hook: a summary of every table in the forest.
+    pub fn verif_tables(&mut self) -> Vec<crate::verif::TableDump> {
+        let mut out = vec![];
+        for table in &mut self.forest.tables {
+            let answers = table.verif_answers();
+            out.push(crate::verif::TableDump {
+                goal: format!("{:?}", table.table_goal),
+                coinductive: table.coinductive_goal,
+                floundered: table.is_floundered(),
+                answers: answers.len(),
+                ambiguous_answers: answers.iter().filter(|a| a.ambiguous).count(),
+                answers_with_delayed_subgoals: answers
+                    .iter()
+                    .filter(|a| !a.subst.value.delayed_subgoals.is_empty())
+                    .count(),
+                strands: table.strands().count(),
+            });
+        }
+        out
+    }
+}
+
 impl<I: Interner> fmt::Debug for SLGSolver<I> {
     fn fmt(&self, fmt: &mut fmt::Formatter<'_>) -> fmt::Result {
         write!(fmt, "SLGSolver")
